@@ -26,6 +26,27 @@ def world_after(case, upto):
     return w
 
 
+def anc(blk, b):
+    out = set()
+    while b != 0:
+        out.add(b); b = blk[b]["parent"]
+    return out
+
+
+def manual_inv(case, upto):
+    """blocks under a manual invalidation after the first `upto` steps"""
+    w = world_after(case, upto)
+    inv = set()
+    for s in case["steps"][:upto]:
+        a = s["a"]
+        if a[0] == "invalidate":
+            inv.add(a[1])
+        elif a[0] == "reconsider":
+            b = a[1]
+            inv = {x for x in inv if not (x in anc(w["blk"], b) or b in anc(w["blk"], x))}
+    return sorted(inv)
+
+
 def check_deviations(ctx, res, obs_module, obs_cfg, relevant):
     devs = res["deviations"]
     ctx.extra["deviations_from_prediction"] = ctx.extra.get("deviations_from_prediction", 0) + int(res["summary"].get("deviations", 0))
@@ -35,33 +56,19 @@ def check_deviations(ctx, res, obs_module, obs_cfg, relevant):
     for d in devs:
         case = json.loads(res["lines"][d["index"]])
         k = d["step"]
-        line = dict(world=world_after(case, k + 1), act=d["action"], exp=case["steps"][k]["exp"]["obs"], post=d["state"]["obs"])
+        line = dict(world=world_after(case, k + 1), act=d["action"], exp=case["steps"][k]["exp"]["obs"], post=d["state"]["obs"],
+                    inv=manual_inv(case, k + 1))
         lines.setdefault(vflib.canon(line), (line, d, case))
     keys = list(lines)
-    path = os.path.join(ctx.work, "observed.ndjson")
     bad = 0
-    remaining = keys
-    for _ in range(8):
-        if not remaining:
-            break
-        with open(path, "w") as f:
-            for k in remaining:
-                f.write(json.dumps(lines[k][0]) + "\n")
-        # TLC stops at the first violated invariant; only the property's own invariants are configured as relevant
-        r = ctx.tlc("UtxoChain", obs_module, obs_cfg, name="observed", env={"OBS": path}, expect_violation=True, workers=1)
-        if not r.violated:
-            break
-        m = re.search(r'lastAct = <<"observed", (\d+)>>', open(r.log_path).read())
-        i = int(m.group(1)) - 1 if m else 0
-        line, d, case = lines[remaining[i]]
-        if r.violated in relevant:
-            ctx.violation("obs:%s:%s" % (r.violated, vflib.digest([d["action"], line["post"]["tip"], line["post"]["utxo"]])),
-                          "node state after %s breaks %s: observed tip=%s utxo=%s (prediction differed: %s)" % (
-                              vflib.canon(d["action"]), r.violated, line["post"]["tip"],
-                              vflib.canon([[c["t"], c["i"]] for c in line["post"]["utxo"]]), d["why"]),
-                          dict(adapter="utxochain", mode="replay", args=res.get("args", []), case=case, mismatch=d, invariant=r.violated))
-            bad += 1
-        remaining = remaining[:i] + remaining[i + 1:]
+    for i, inv in vflib.judge(ctx, "UtxoChain", obs_module, obs_cfg, [lines[k][0] for k in keys], invariants=sorted(relevant)):
+        line, d, case = lines[keys[i]]
+        ctx.violation("obs:%s:%s" % (inv, vflib.digest([d["action"], line["post"]["tip"], line["post"]["utxo"]])),
+                      "node state after %s breaks %s: observed tip=%s utxo=%s (prediction differed: %s)" % (
+                          vflib.canon(d["action"]), inv, line["post"]["tip"],
+                          vflib.canon([[c["t"], c["i"]] for c in line["post"]["utxo"]]), d["why"]),
+                      dict(adapter="utxochain", mode="replay", args=res.get("args", []), case=case, mismatch=d, invariant=inv))
+        bad += 1
     ctx.extra["benign_deviation_states"] = ctx.extra.get("benign_deviation_states", 0) + len(keys) - bad
 
 
